@@ -241,35 +241,38 @@ Definition finder_soundb (x : list N) (find : N -> answer) : bool :=
                     end) (seq 0 (length x)).
 
 (* ------------------------------------------------------------------ *)
-(* an output-reversed reconstruction for cheap evaluation (proved equal in ProofsSimd.v):
-   the LZ copy conses the (d-1)-th element of the reversed output                       *)
+(* an output-reversed reconstruction for cheap evaluation (proved equal to simd_reconstruct_g in
+   ProofsSimdFast.v): the LZ copy conses the (d-1)-th element of the reversed output          *)
 (* ------------------------------------------------------------------ *)
 Fixpoint rcopy (k : nat) (dm1 : nat) (rout : list N) : list N :=
   match k with O => rout | S k' => rcopy k' dm1 (nth dm1 rout 0 :: rout) end.
-Definition fast_backref (ph : N) (rout : list N) (olen d len : N) : res (list N) :=
-  if d <=? olen then
+Definition fast_backref (ph : N) (rout : list N) (d len : N) : res (list N) :=
+  if d <=? nlen rout then
     (if d =? 0 then Err else Ok (rcopy (N.to_nat len) (N.to_nat (d - 1)) rout))
   else Ok (rev_append (repeat ph (N.to_nat len)) rout).
-Definition fast_step (lit : N -> list N) (rout : list N) (olen : N) (m : pmatch) : res (list N) :=
-  if MAX_DECOMPRESSED_SIZE - olen <? m_length m then Err
+Definition fast_step (lit : N -> list N) (rout : list N) (m : pmatch) : res (list N) :=
+  if MAX_DECOMPRESSED_SIZE - nlen rout <? m_length m then Err
   else match m with
        | Literal l => Ok (rev_append (lit l) rout)
        | RLE b l => Ok (rev_append (repeat b (N.to_nat l)) rout)
        | Global _ l => Ok (rev_append (repeat 71 (N.to_nat l)) rout)
-       | NearShort d l => fast_backref 78 rout olen d l
-       | Far1Short d l => fast_backref 70 rout olen d l
-       | Far2Short d l => fast_backref 50 rout olen d l
-       | Far2Long d l => fast_backref 76 rout olen d l
-       | Far3Long d l => fast_backref 51 rout olen d l
+       | NearShort d l => fast_backref 78 rout d l
+       | Far1Short d l => fast_backref 70 rout d l
+       | Far2Short d l => fast_backref 50 rout d l
+       | Far2Long d l => fast_backref 76 rout d l
+       | Far3Long d l => fast_backref 51 rout d l
        end.
-Fixpoint fast_reconstruct_from (lit : N -> list N) (ms : list pmatch) (rout : list N) (olen : N) : res (list N) :=
+Fixpoint fast_reconstruct_from (lit : N -> list N) (ms : list pmatch) (rout : list N) : res (list N) :=
   match ms with
   | [] => Ok (rev' rout)
-  | m :: t => match fast_step lit rout olen m with
-              | Ok rout' => fast_reconstruct_from lit t rout'
-                              (olen + match m with Literal l => nlen (lit l) | _ => m_length m end)
-              | Err => Err | Panic => Panic | Fuel => Fuel
-              end
+  | m :: t => rbind (fast_step lit rout m) (fast_reconstruct_from lit t)
   end.
+Definition simd_reconstruct_fast_g (lit : N -> list N) (ms : list pmatch) : res (list N) :=
+  fast_reconstruct_from lit ms [].
 Definition simd_reconstruct_fast (ms : list pmatch) : res (list N) :=
-  fast_reconstruct_from placeholder_lit ms [] 0.
+  simd_reconstruct_fast_g placeholder_lit ms.
+Definition simd_decompress_fast (z : list N) : res (list N) :=
+  match z with
+  | [] => Ok []
+  | _ => rbind (simd_decode_matches z) simd_reconstruct_fast
+  end.
